@@ -1009,6 +1009,7 @@ Proof. vm_compute. split; reflexivity. Qed.
 
 (* ================================================================== round 7: the SVD contract of the HOOI theorems discharged from LAPACK's contract *)
 From TLV Require Import Base.Ops Model.Svd Proofs.SvdProofs Proofs.SvdWitness Proofs.SvdSymeigFull Proofs.StructureSvdBridge.
+From Coq Require Import RealField.
 Local Open Scope nat_scope.
 (* (read-only import of C05's model of svd_interface / truncated_svd and of its theorem interface_truncated_e2e_gen.)  One call
    svd_interface(M, n_eigenvecs = r, method = 'truncated_svd', flip_sign = flip) on a d1 x d2 matrix, through C05's model of the clamping, the
@@ -1067,6 +1068,29 @@ Proof. exact hooi_symeig_canonical. Qed.
 Print Assumptions C08_hooi_symeig_canonical.
 Example C08_symeig_call_ok_ex : symeig_call_ok (fun _ => ([4%R], [[1%R]])) 1%R 1 1 1 [[2%R]].
 Proof. exact symeig_call_ok_ex. Qed.
+
+(* TT-SVD / TR-SVD with svd_interface(method = 'truncated_svd') as the SVD of the loop models of Proofs/StructureTTConj.v.  `_partial`: the contract of
+   those loop theorems quantifies over EVERY matrix, so the hypothesis here is LAPACK's contract on every matrix = the existence of a singular value
+   decomposition, a classical result in no installed library (named hypothesis; no non-vacuity Example can be given for it).  Under it: the core
+   shapes are those of the shape model and all TT cores but the last are left-orthogonal; the first TR core has orthonormal mode unfolding columns
+   and the middle ones are left-orthogonal -- from LAPACK's contract through C05's model of svd_interface, no separate orthonormality assumption *)
+Theorem C08_tensor_train_lapack_partial : forall (orc : list (list R) -> bool -> triple R) (flip ub : bool),
+  (forall d1 d2 (Ml : list (list R)) f, svd_contract d1 d2 (mget Rops Ml) f (orc Ml f)) ->
+  forall (svdSV : nat -> nat -> (nat -> nat -> R) -> nat -> nat -> nat -> R) shape spec c X cores,
+  tensor_train_K R (tsvdU orc flip ub) svdSV shape spec c X = Ok cores ->
+  tensor_train shape spec c = Ok (map (cshape R) cores) /\
+  (forall k, S k < length cores -> left_unitary R 0%R 1%R Rplus Rmult (fun x => x) (nth k cores (mkCore R 0 0 0 (fun _ _ _ => 0%R)))).
+Proof. exact tensor_train_lapack_partial. Qed.
+Print Assumptions C08_tensor_train_lapack_partial.
+Theorem C08_tensor_ring_lapack_partial : forall (orc : list (list R) -> bool -> triple R) (flip ub : bool),
+  (forall d1 d2 (Ml : list (list R)) f, svd_contract d1 d2 (mget Rops Ml) f (orc Ml f)) ->
+  forall (svdSV : nat -> nat -> (nat -> nat -> R) -> nat -> nat -> nat -> R) shape rank X cores,
+  tr_cores_K R (tsvdU orc flip ub) svdSV shape rank X = Ok cores ->
+  tr_cores shape rank = Ok (map (cshape R) cores) /\
+  first_core_unitary R 0%R 1%R Rplus Rmult (fun x => x) (hd (mkCore R 0 0 0 (fun _ _ _ => 0%R)) cores) /\
+  (forall k, 1 <= k -> S k < length cores -> left_unitary R 0%R 1%R Rplus Rmult (fun x => x) (nth k cores (mkCore R 0 0 0 (fun _ _ _ => 0%R)))).
+Proof. exact tensor_ring_lapack_partial. Qed.
+Print Assumptions C08_tensor_ring_lapack_partial.
 
 (* ================================================================== round 7: the initial CP weights (initialize_cp as a set of paths) *)
 (* the clause "otherwise the CP weights are all ones" needs the INITIAL weights to be ones (C08_wprog_unit_weights starts from them): for every
